@@ -25,7 +25,8 @@ ASSUMPTIONS = _x1.X1_ASSUMPTIONS + [
 MENU = [("pause",), ("dpause",), ("suspend", "none"), ("suspend", "both")]
 _q = ["count2", "scan2", "relscan2", "grid22s", "listscan", "nested", "tworuns", "adaptive", "tunec"]
 SPECS = {
-    "quick": [spec(k, MENU, bound=1) for k in _q] + [spec("linear", MENU, bound=1, seq=s) for s in ("or-cp-crs-cp-crs-cr", "or-cp-crs-cr-or-cp-crs-cr", "or-cp-set-crs-cp-set-crs-cr")],
+    "quick": [spec(k, MENU, bound=1) for k in _q] + [spec("linear", MENU, bound=1, seq=s) for s in ("or-cp-crs-cp-crs-cr", "or-cp-crs-cr-or-cp-crs-cr", "or-cp-set-crs-cp-set-crs-cr")]
+    + [spec("tiny", MENU, bound=2)],  # every pair of interruptions on the smallest run
     "thorough": [spec(k, MENU, bound=1, a=a) for k in _q + ["cleanup", "baseline", "fly1", "twomotors"] for a in (0, 1)]
     + [spec(k, MENU, bound=2) for k in ("count2", "tworuns", "tiny", "nested")]
     + [spec("scan2", [("pause",), ("suspend", "none")], bound=2)]
